@@ -19,6 +19,18 @@ CHECKS = {
  "C14": ("fault_enumeration", "property-based testing (proptest) over blob shapes + exhaustive enumeration of single-bit/byte/truncation/extension tampering and provider faults per blob",
          "For each generated blob shape every tamper of the stated kinds is enumerated and must yield Err; round trip and leak windows are checked on the untouched blob; provider faults on either call are injected.",
          "Trusted base: the harness table-KMS authenticates the whole wrapped key, like a real KMS; AES-GCM forgery infeasible. Multi-byte coordinated edits are only sampled (extension/truncation).", "DESIGN.md §3 C14"),
+ "C02": ("exploration", "property-based testing (proptest) of batch histories against the real in-process Server, judged by an independent spec-derived verifier; statistical check of the fault share",
+         "Generated batch compositions, positions, consecutive batches and batch_size values are served by the real Server object; every emitted datagram is judged by a verifier that shares no code with the product (own codec, sha2, ring). Fault mode checks verdict totality, no half-valid replies and the failing share (6 sigma).",
+         "Trusted base: refproto.rs/refcrypto.rs, loopback UDP ordering. Online keys and the server's own PRNG are not pinned. The real multi-worker binary is covered by C18/C15, not here.", "DESIGN.md §3 C02"),
+ "C07": ("exploration", "property-based testing (proptest) + grid enumeration of nonce lengths against the in-process Server with a sentinel-request protocol; reference request classifier",
+         "Searches datagram space (lengths 0..=65507, truncated/extended/field-mutated requests, every aligned nonce length, full batches) for a datagram that is answered although it is not a well-formed in-range request, or a reply longer than its request.",
+         "Only the only-if direction and the size relation are asserted; the classifier is deliberately generous. Absence of a reply is asserted only after the sentinel proved consumption.", "DESIGN.md §3 C07"),
+ "C08": ("exploration", "property-based testing (proptest) of datagram sequences per log level (one worker process per level) with catch_unwind and a sentinel liveness probe",
+         "Generated sequences of valid, near-valid and junk datagrams are fed to the Server at each log level Off..Trace (arguments of log macros really evaluated), with faults and batch sizes varied; a panic, a wedged worker or a wrong sentinel answer is a violation.",
+         "Trusted base: catch_unwind; the capturing logger formats every record like a real logger. Kernel-level socket errors are not injected.", "DESIGN.md §3 C08"),
+ "C09": ("exploration", "property-based testing (proptest) of multi-socket interleavings against the in-process Server; one-to-one reply/request matching under the strict verifier",
+         "Generated interleavings of classic, IETF and invalid datagrams from up to 48 sockets (shared nonces, several requests per socket, bursts below/at/above batch_size) must yield exactly the owed replies, each provably for a request of the receiving socket.",
+         "Only standard requests are owed a reply and only clearly invalid datagrams are owed silence; the in-between is not asserted. The kernel's multi-worker distribution is C18's business.", "DESIGN.md §3 C09"),
 }
 
 NOT_YET = {}
